@@ -153,7 +153,7 @@ def gen_case(r):
         comm = r.choice(["", "", "EUR", "ACME"])
         two = r.sample(accs, 2) if r.random() < 0.8 else [r.choice(ACCOUNTS), r.choice(ACCOUNTS)]
         m, s = r.choice([1, -1]) * r.randint(1, 10 ** r.choice([1, 3, 6])), r.choice([0, 0, 1, 2, 5])
-        if r.random() < 0.03:
+        if r.random() < 0.01:
             m = r.choice([1, -1]) * r.randint(2 ** 93, 2 ** 95)      # may leave the exact domain (skipped then)
         amt = J.dec_str(m, s) + ((" " + comm) if comm else "")
         namt = J.dec_str(-m, s) + ((" " + comm) if comm else "")
